@@ -7,6 +7,7 @@ toolchain go1.23.5
 require (
 	github.com/failsafe-go/failsafe-go v0.0.0
 	google.golang.org/grpc v1.67.1
+	google.golang.org/protobuf v1.36.4
 	pgregory.net/rapid v1.3.0
 )
 
@@ -16,7 +17,6 @@ require (
 	golang.org/x/sys v0.24.0 // indirect
 	golang.org/x/text v0.17.0 // indirect
 	google.golang.org/genproto/googleapis/rpc v0.0.0-20240814211410-ddb44dafa142 // indirect
-	google.golang.org/protobuf v1.36.4 // indirect
 )
 
 replace github.com/failsafe-go/failsafe-go => /repo
